@@ -471,6 +471,7 @@ func (p *Program) topLevel() {
 		for !p.isP(")") && p.peek().k != 0 && p.err == "" {
 			pq := p.qualifiers()
 			pt := p.parseType()
+			pq = append(pq, p.qualifiers()...) // e.g. "device T const& x"
 			byRef := has(pq, "inout") || has(pq, "out")
 			if p.accept("&") {
 				byRef = true
